@@ -53,15 +53,27 @@ func s(x string) types.Value { return types.NewString(x) }
 
 // the sources: every function builds a fresh value; "mut" marks where a mutable map sits
 var mutSources = map[string]func() types.Value{
-	"mutAB":        func() types.Value { return types.NewMap(s("a"), types.NewInt(1), s("b"), s("x")).Mutable() },
-	"mutInts":      func() types.Value { return types.NewMap(s("a"), types.NewInt(1), s("b"), types.NewInt(2)).Mutable() },
-	"mutABextra":   func() types.Value { return types.NewMap(s("a"), types.NewInt(1), s("b"), s("x"), s("c"), types.True).Mutable() },
-	"mutEmpty":     func() types.Value { return types.NewMap().Mutable() },
-	"slice[mut]":   func() types.Value { return types.NewSlice(types.NewMap(s("a"), types.NewInt(1), s("b"), types.NewInt(2)).Mutable(), types.NewMap(s("a"), types.NewInt(3)).Mutable()) },
-	"map{k:mut}":   func() types.Value { return types.NewMap(s("k"), types.NewMap(s("a"), types.NewInt(1), s("b"), types.NewInt(2)).Mutable()) },
-	"mut{k:mut}":   func() types.Value { return types.NewMap(s("k"), types.NewMap(s("a"), types.NewInt(1)).Mutable(), s("ab"), types.NewMap(s("a"), types.NewInt(7), s("b"), s("y")).Mutable()).Mutable() },
-	"mut{a,k:mut}": func() types.Value { return types.NewMap(s("a"), types.NewInt(1), s("k"), types.NewMap(s("z"), types.NewInt(9)).Mutable()).Mutable() },
-	"built-by-Set": func() types.Value { return types.NewMapWithSize(2).Set(s("a"), types.NewInt(1)).Set(s("b"), types.NewInt(2)) },
+	"mutAB":   func() types.Value { return types.NewMap(s("a"), types.NewInt(1), s("b"), s("x")).Mutable() },
+	"mutInts": func() types.Value { return types.NewMap(s("a"), types.NewInt(1), s("b"), types.NewInt(2)).Mutable() },
+	"mutABextra": func() types.Value {
+		return types.NewMap(s("a"), types.NewInt(1), s("b"), s("x"), s("c"), types.True).Mutable()
+	},
+	"mutEmpty": func() types.Value { return types.NewMap().Mutable() },
+	"slice[mut]": func() types.Value {
+		return types.NewSlice(types.NewMap(s("a"), types.NewInt(1), s("b"), types.NewInt(2)).Mutable(), types.NewMap(s("a"), types.NewInt(3)).Mutable())
+	},
+	"map{k:mut}": func() types.Value {
+		return types.NewMap(s("k"), types.NewMap(s("a"), types.NewInt(1), s("b"), types.NewInt(2)).Mutable())
+	},
+	"mut{k:mut}": func() types.Value {
+		return types.NewMap(s("k"), types.NewMap(s("a"), types.NewInt(1)).Mutable(), s("ab"), types.NewMap(s("a"), types.NewInt(7), s("b"), s("y")).Mutable()).Mutable()
+	},
+	"mut{a,k:mut}": func() types.Value {
+		return types.NewMap(s("a"), types.NewInt(1), s("k"), types.NewMap(s("z"), types.NewInt(9)).Mutable()).Mutable()
+	},
+	"built-by-Set": func() types.Value {
+		return types.NewMapWithSize(2).Set(s("a"), types.NewInt(1)).Set(s("b"), types.NewInt(2))
+	},
 }
 
 var mutTargets = map[string]reflect.Type{
